@@ -11,8 +11,10 @@
       (for every scalar type, `Float` included), `gthSolve_scale` (rate factor `c > 0`, exact
       arithmetic), `gthSolve_generator` (`x G = 0`).
   * "for a reducible matrix, the exact stationary vector of one of its recurrent classes (zero
-      elsewhere)": `gthSolve_stationary` (it is a stationary vector) + `gth_support_partial`
-      (where the support lies); that the support is exactly one recurrent class is tested only.
+      elsewhere)": `gthSolve_stationary` (it is a stationary vector) + `gth_support`,
+      `gth_support_is_recClass` (support = exactly one recurrent class, positive on it; round 2).
+  * "agrees with the exact stationary distribution of that class": it IS that distribution in exact
+      arithmetic, and that distribution is unique — `gth_unique`, `class_row_unique` (round 2).
   * "stationary_distributions … each row is a probability vector, invariant, supported on its
       class": `class_row_stationary`, `stationaryDists_row` (closedness of the class enters as a
       certificate `closedB` that the driver evaluates on every reported class).
@@ -20,13 +22,17 @@
       (`gth_subtraction_free`: on non-negative off-diagonals every stored quantity is ≥ 0; the model is
       typed without `Sub`/`Neg`, so no subtraction exists in it); the rounding analysis is not.
   * the driver's two-phase program = the recursion the proofs are about: `gthRaw_eq_gthRec`.
-  Not proved here (tested by the correspondence / spec run): support = exactly one recurrent class,
-  number of rows = number of recurrent classes, floating-point accuracy, NumPy copy semantics.
+  * "exactly one row per recurrent class": `reachMat_correct`, `recClasses_exact`,
+      `stationaryDists_one_row_per_class`, `closedB_holds` (round 2).
+  Not proved here (tested by the correspondence / spec run): floating-point accuracy, NumPy copy
+  semantics, SciPy's component labelling (the model computes the classes itself).
 -/
 import QEModel.C02
 import QEProofs.Lemmas.C02Gth
 import QEProofs.Lemmas.C02Scatter
 import QEProofs.Lemmas.C02Class
+import QEProofs.Lemmas.C02Support
+import QEProofs.Lemmas.C02Unique
 namespace QE.C02
 open Finset
 
@@ -37,6 +43,46 @@ open Finset
 theorem gthRaw_eq_gthRec {α : Type} [Zero α] [One α] [Add α] [Mul α] [Div α] [LE α] [DecidableLE α]
     (n : ℕ) (hn : 1 ≤ n) (A : M α) : gthRaw n A = gthRec n (n - 1) 0 A :=
   gthRaw_eq_rec n hn A
+
+/-! ## T1 (round 2) — the model's closure computes reachability and the recurrent classes, every n -/
+
+/-- `reachMat` (n rounds of `reachStep` from the identity) is reachability in the digraph
+    `E n adj` (`Rch` = reflexive-transitive closure), for every `n` and every adjacency predicate. -/
+theorem reachMat_correct (n : ℕ) (adj : ℕ → ℕ → Bool) (i j : ℕ) (hi : i < n) (hj : j < n) :
+    (reachMat n adj).get i j = 1 ↔ Rch n adj i j :=
+  reachMat_iff n adj i j hi hj
+
+/-- **`recClasses` is exactly the set of recurrent (closed communicating) classes**: the list has no
+    repetition; every member is the communication class `{j | i ⇄ j}` of a recurrent state `i`
+    (`Recurrent`: everything reachable from `i` leads back) and is closed under the edges; every
+    recurrent state lies in a member; two members sharing a state are equal. -/
+theorem recClasses_exact (n : ℕ) (adj : ℕ → ℕ → Bool) :
+    (recClasses n (reachMat n adj)).Nodup
+    ∧ (∀ C ∈ recClasses n (reachMat n adj), ∃ i, i < n ∧ Recurrent n adj i ∧
+          ∀ j, j ∈ C ↔ (Rch n adj i j ∧ Rch n adj j i))
+    ∧ (∀ C ∈ recClasses n (reachMat n adj), ∀ c j, c ∈ C → E n adj c j → j ∈ C)
+    ∧ (∀ i, i < n → Recurrent n adj i → ∃ C ∈ recClasses n (reachMat n adj), i ∈ C)
+    ∧ (∀ C1 ∈ recClasses n (reachMat n adj), ∀ C2 ∈ recClasses n (reachMat n adj),
+          ∀ j, j ∈ C1 → j ∈ C2 → C1 = C2) := by
+  refine ⟨recClasses_nodup n adj, ?_, ?_, ?_, ?_⟩
+  · intro C hC
+    obtain ⟨i, hi, hr, _, _, hm⟩ := recClasses_sound n adj C hC
+    exact ⟨i, hi, hr, hm⟩
+  · intro C hC c j hc hcj
+    exact recClasses_closed n adj C hC c j hc hcj
+  · intro i hi hr
+    exact recClasses_complete n adj i hi hr
+  · intro C1 h1 C2 h2 j hj1 hj2
+    exact recClasses_disjoint n adj C1 C2 h1 h2 j hj1 hj2
+
+/-- **exactly one row per recurrent class**: the class labels of the rows of `stationaryDists`
+    are the list `recClasses` (duplicate-free by `recClasses_exact`), in the same order. -/
+theorem stationaryDists_one_row_per_class {α : Type} [Zero α] [One α] [Add α] [Mul α] [Div α]
+    [LE α] [DecidableLE α] (n : ℕ) (P : M α) :
+    (stationaryDists n P).map (·.1) = recClasses n (reachMat n (adjB P)) := by
+  unfold stationaryDists
+  rw [List.map_map]
+  exact List.map_id'' (fun _ => rfl) _
 
 section field
 variable {K : Type} [Field K] [LinearOrder K] [IsStrictOrderedRing K]
@@ -111,20 +157,54 @@ theorem gth_subtraction_free (n : ℕ) (A : M K) (hA : OffNonneg n A) (fuel k : 
     OffNonneg n (reduce n fuel k A).1 :=
   reduce_offNonneg n fuel k A hA
 
-/-! ## T2 (partial) — where the support lies on a reducible matrix -/
+/-! ## T2 (round 2) — the support is exactly one recurrent class, positive on it -/
 
-/-- With `m` the effective size computed by the reduction (`n`, or `k+1` at the first pivot `k` whose
-    active row sum is `≤ 0`): `1 ≤ m ≤ n`, the result is positive at index `m-1` and zero at every
-    index `≥ m`.
-    *Partial*: the property says the support is exactly one recurrent class of the matrix; what is
-    missing is that (i) the indices `< m-1` with a non-zero entry are exactly the states communicating
-    with `m-1`, and (ii) that this set is a recurrent class of the *original* matrix (it needs the
-    reachability reading of the reduced matrices). Both are checked on every case by the spec run. -/
-theorem gth_support_partial (n : ℕ) (hn : 1 ≤ n) (A : M K) (hA : OffNonneg n A) :
-    1 ≤ (reduce n (n - 1) 0 A).2 ∧ (reduce n (n - 1) 0 A).2 ≤ n
-    ∧ 0 < (gthSolve n A).getD ((reduce n (n - 1) 0 A).2 - 1) 0
-    ∧ ∀ i, (reduce n (n - 1) 0 A).2 ≤ i → (gthSolve n A).getD i 0 = 0 :=
-  gth_support_aux n hn A hA
+/-- **Support of `gth_solve` on any Metzler matrix (reducible included).** Let `c = m − 1`, `m` the
+    effective size computed by the reduction (`n`, or `k+1` at the first pivot `k` whose active row
+    sum is `≤ 0`). Then in the digraph of positive entries (`Rch` = reachability, `edge_iff`):
+    `c` is a recurrent state, and for every state `j`: `x_j > 0 ⇔ c ⇝ j`. Since `c` is recurrent,
+    `{j | c ⇝ j}` is its communication class — a recurrent class; elsewhere `x_j = 0` (`x ≥ 0` by
+    `gthSolve_stationary`). Replaces round 1's `gth_support_partial`. -/
+theorem gth_support (n : ℕ) (hn : 1 ≤ n) (A : M K) (hA : OffNonneg n A) :
+    (reduce n (n - 1) 0 A).2 - 1 < n
+    ∧ Recurrent n (adjB A) ((reduce n (n - 1) 0 A).2 - 1)
+    ∧ ∀ j, j < n →
+        (0 < (gthSolve n A).getD j 0 ↔ Rch n (adjB A) ((reduce n (n - 1) 0 A).2 - 1) j) :=
+  gth_support_full n hn A hA
+
+/-- the same, in terms of the model's class list: the support of `gthSolve n A` is exactly one of
+    the lists of `recClasses` (which are exactly the recurrent classes, `recClasses_exact`), and the
+    solution is strictly positive on it. -/
+theorem gth_support_is_recClass (n : ℕ) (hn : 1 ≤ n) (A : M K) (hA : OffNonneg n A) :
+    ∃ C, C ∈ recClasses n (reachMat n (adjB A)) ∧
+      ∀ j, j < n → (0 < (gthSolve n A).getD j 0 ↔ j ∈ C) :=
+  gth_support_recClass n hn A hA
+
+/-! ## T2 (round 2) — uniqueness: "the" exact stationary distribution -/
+
+/-- **Uniqueness for an irreducible matrix.** If every state reaches every state, any `y` with
+    `y (A − D) = 0` and `Σ y = 1` (no sign assumption) is the vector `gthSolve` returns. -/
+theorem gth_unique (n : ℕ) (hn : 1 ≤ n) (A : M K) (hA : OffNonneg n A)
+    (hirr : ∀ i j, i < n → j < n → Rch n (adjB A) i j)
+    (y : ℕ → K)
+    (hy : ∀ b, b < n → ∑ i ∈ range n, y i * Qm (fun a b => A.get a b) 0 n i b = 0)
+    (hsum : ∑ i ∈ range n, y i = 1) :
+    ∀ i, i < n → y i = (gthSolve n A).getD i 0 :=
+  null_unique n hn A hA hirr y hy hsum
+
+/-- **Each row is THE stationary distribution of its class.** For a stochastic matrix `P` and a
+    class `C` of the model's `recClasses`, the restricted matrix `P[C,C]` has exactly one probability
+    vector `y` with `y P[C,C] = y`, namely `gthSolve |C| P[C,C]` — the vector `stationaryDists`
+    scatters into the row of `C`. -/
+theorem class_row_unique (n : ℕ) (P : M K)
+    (hnn : ∀ i j, i < n → j < n → 0 ≤ P.get i j)
+    (hrow : ∀ i, i < n → ∑ j ∈ range n, P.get i j = 1)
+    (C : List ℕ) (hC : C ∈ recClasses n (reachMat n (adjB P)))
+    (y : ℕ → K)
+    (hy : ∀ b, b < C.length → ∑ a ∈ range C.length, y a * (restrict P C).get a b = y b)
+    (hsum : ∑ a ∈ range C.length, y a = 1) :
+    ∀ a, a < C.length → y a = (gthSolve C.length (restrict P C)).getD a 0 :=
+  class_row_unique_aux n P hnn hrow C hC y hy hsum
 
 /-! ## T1 — every reported row is a stationary distribution of the whole chain -/
 
@@ -145,16 +225,13 @@ theorem class_row_stationary (n : ℕ) (P : M K) (C : List ℕ)
   class_row_stationary_aux n P C hnd hC hne hnn hrow hclosed
 
 /-- **`stationaryDists`, row by row.** Every pair `(C, r)` the model of
-    `MarkovChain.stationary_distributions` returns for a stochastic matrix, and for which the
-    closedness certificate `closedB` (evaluated by the driver on every reported class) holds, is a
-    stationary distribution: `r P = r`, `r ≥ 0`, `Σ r = 1`, `r = 0` outside `C`.
-    (That `C` is duplicate-free, non-empty and inside `[0,n)` is proved, not assumed. That the classes
-    are exactly the recurrent classes is not proved here — the correspondence compares them with the
-    code's and the spec run with an independent closure computation.) -/
+    `MarkovChain.stationary_distributions` returns for a stochastic matrix is a stationary
+    distribution supported in `C`: `r P = r`, `r ≥ 0`, `Σ r = 1`, `r = 0` outside `C`.
+    (Round 2: the closedness of `C` is no longer a run-time certificate — `closedB_holds`.) -/
 theorem stationaryDists_row (n : ℕ) (P : M K)
     (hnn : ∀ i j, i < n → j < n → 0 ≤ P.get i j)
     (hrow : ∀ i, i < n → ∑ j ∈ range n, P.get i j = 1)
-    (Cr : List ℕ × List K) (hmem : Cr ∈ stationaryDists n P) (hcert : closedB n P Cr.1 = true) :
+    (Cr : List ℕ × List K) (hmem : Cr ∈ stationaryDists n P) :
     (∀ j, j < n → ∑ i ∈ range n, Cr.2.getD i 0 * P.get i j = Cr.2.getD j 0)
     ∧ (∀ i, 0 ≤ Cr.2.getD i 0)
     ∧ ∑ i ∈ range n, Cr.2.getD i 0 = 1
@@ -162,7 +239,45 @@ theorem stationaryDists_row (n : ℕ) (P : M K)
   unfold stationaryDists at hmem
   obtain ⟨C, hCmem, rfl⟩ := List.mem_map.1 hmem
   obtain ⟨hnd, hC, hne⟩ := recClasses_mem n _ C hCmem
-  exact class_row_stationary_aux n P C hnd hC hne hnn hrow (closedB_sound n P C hcert hnn hC)
+  exact class_row_stationary_aux n P C hnd hC hne hnn hrow
+    (closedB_sound n P C (closedB_recClasses n P C hCmem) hnn hC)
+
+/-- **The whole clause about `stationary_distributions`, row by row (exact arithmetic).** For a
+    stochastic matrix, every pair `(C, r)` of `stationaryDists`:
+    * `C` is one of the recurrent classes (`recClasses_exact`; one row per class by
+      `stationaryDists_one_row_per_class`);
+    * `r` is a probability vector invariant under `P`;
+    * `r` is supported *exactly* on `C` (`r_i > 0 ⇔ i ∈ C`);
+    * `r` is *the* stationary distribution of `C`: any `y` with `y P = y`, `Σ y = 1`, `y = 0`
+      outside `C` coincides with `r`. -/
+theorem stationaryDists_row_exact (n : ℕ) (P : M K)
+    (hnn : ∀ i j, i < n → j < n → 0 ≤ P.get i j)
+    (hrow : ∀ i, i < n → ∑ j ∈ range n, P.get i j = 1)
+    (Cr : List ℕ × List K) (hmem : Cr ∈ stationaryDists n P) :
+    Cr.1 ∈ recClasses n (reachMat n (adjB P))
+    ∧ (∀ j, j < n → ∑ i ∈ range n, Cr.2.getD i 0 * P.get i j = Cr.2.getD j 0)
+    ∧ (∀ i, 0 ≤ Cr.2.getD i 0)
+    ∧ ∑ i ∈ range n, Cr.2.getD i 0 = 1
+    ∧ (∀ i, 0 < Cr.2.getD i 0 ↔ i ∈ Cr.1)
+    ∧ (∀ y : ℕ → K, (∀ j, j < n → ∑ i ∈ range n, y i * P.get i j = y j) →
+          ∑ i ∈ range n, y i = 1 → (∀ i, i < n → i ∉ Cr.1 → y i = 0) →
+          ∀ i, i < n → y i = Cr.2.getD i 0) := by
+  obtain ⟨h1, h2, h3, _⟩ := stationaryDists_row n P hnn hrow Cr hmem
+  unfold stationaryDists at hmem
+  obtain ⟨C, hCmem, rfl⟩ := List.mem_map.1 hmem
+  exact ⟨hCmem, h1, h2, h3, class_row_support n P hnn hrow C hCmem,
+    fun y hy hs ho => class_row_unique_full n P hnn hrow C hCmem y hy hs ho⟩
+
+/-- the certificate `closedB` printed by the driver (`closed=1`) holds for every class the model
+    computes, for every matrix -/
+theorem closedB_holds (n : ℕ) (P : M K) (C : List ℕ)
+    (h : C ∈ recClasses n (reachMat n (adjB P))) : closedB n P C = true :=
+  closedB_recClasses n P C h
+
+/-- the digraph the classes refer to: an edge is a positive entry -/
+theorem edge_iff (n : ℕ) (P : M K) (a b : ℕ) :
+    E n (adjB P) a b ↔ (a < n ∧ b < n ∧ 0 < P.get a b) := by
+  unfold E; rw [adjB_iff]
 
 end field
 
@@ -203,6 +318,13 @@ example : gthSolve 3 exP = [8/19, 5/19, 6/19] := by decide +kernel
 example : gthSolve 4 exR = [1, 0, 0, 0] := by decide +kernel      -- break at k = 0
 example : (reduce 4 3 0 exR).2 = 1 := by decide +kernel
 example : 0 < rowScale 3 exP 0 := by decide +kernel
+/-- `exP` is irreducible (hypothesis of `gth_unique`), read off the proved-correct closure -/
+example : ∀ i j, i < 3 → j < 3 → Rch 3 (adjB exP) i j := by
+  intro i j hi hj
+  have h : ∀ i < 3, ∀ j < 3, (reachMat 3 (adjB exP)).get i j = 1 := by decide +kernel
+  exact (reachMat_iff 3 (adjB exP) i j hi hj).1 (h i hi j hj)
+example : recClasses 4 (reachMat 4 (adjB exR)) = [[0], [2, 3]] := by decide +kernel
+example : (reduce 3 2 0 exP).2 - 1 = 2 := by decide +kernel
 /-- generator `3 (P − I)` of `exP`: rows sum to zero, same answer -/
 def exG : M ℚ := M.ofRows [[-3/2, 3/4, 3/4], [3/2, -3, 3/2], [3/4, 3/2, -9/4]]
 example : ∀ i, i < 3 → ∑ j ∈ range 3, exG.get i j = 0 := by decide +kernel
